@@ -32,12 +32,13 @@ def selftest():
 
 
 def factory(stats, excluded, last, ctl):
-    return CM.make_machine("digests", {}, stats, excluded, last, ctl)
+    return CM.make_machine("digests", dict(loose_flags=True), stats, excluded,
+                           last, ctl)
 
 
 def factory_aggr(stats, excluded, last, ctl):
-    return CM.make_machine("digests", dict(aggressive=True), stats, excluded,
-                           last, ctl)
+    return CM.make_machine("digests", dict(aggressive=True, loose_flags=True),
+                           stats, excluded, last, ctl)
 
 
 def test(case, note):
@@ -78,6 +79,17 @@ def subchecks(tier):
     dh = [dict(h, cfg=dict(h["cfg"], readonly=(i % 2 == 0)))
           for i, h in enumerate(designed_histories()
                                 + operand_histories())]
+    # the same guard chains under every combination of the constructor flags
+    # (vacuum=True with and without Lambda: branch shortcuts)
+    seen = set()
+    for h in list(dh):
+        key = tuple(o.get("key") or o.get("helper") for o in h["ops"])
+        if key in seen or h["cfg"].get("clear_every") not in (30, 3):
+            continue
+        seen.add(key)
+        for lam in (0.0, 0.25):
+            dh.append(dict(h, cfg=dict(h["cfg"], vacuum=True, Lambda=lam,
+                                       matter="none", readonly=False)))
     return [
         Sub("history", None, test, 128 if q else 2500, kind="machine",
             machine=factory, steps=30, shards=8 if q else 16, max_rounds=3, shrink_quick=False,
